@@ -688,6 +688,8 @@ func (c *runnerCfg) writeEvidence(worlds []*World, outs []*worldOutcome, wall ti
 	assumptions := []string{
 		"simnet models TCP as seen through package net on Linux (ordered byte streams, FIN/RST, bounded buffers); RST is delivered after the data that preceded it",
 		"the simulated system is built with Go 1.26.8's standard library (shipped binary: 1.23.12); testing/synctest provides the fake clock and quiescence",
+		"worker processes run with one P, GC and asynchronous preemption off; interleavings inside a scheduler step come from event batching and from seeded preemption points inserted before every statement of the system under test (dependencies such as net/http, crypto/tls, x/net have none)",
+		"scratch-copy rewrites: the system's sync.Mutex fields of three packages and net/http's body mutex (through go build -overlay) are channel-based mutexes with sync.Mutex's barging semantics; two map iterations of the h2 relay are sorted; one shutdown jitter source is seeded",
 		"seeded sampling: a clean batch is evidence, not proof",
 	}
 	rule := ""
